@@ -13,6 +13,7 @@ void *wb_thread_stacktop(ABT_thread th);
 size_t wb_thread_stacksize(ABT_thread th);
 const void *wb_thread_ctx(ABT_thread th);
 int wb_thread_is_in_pool(ABT_thread th);
+const void *wb_thread_migration_target(ABT_thread th);
 /* white-box memory-pool driver (ABTI_mem_pool_*): element = [ptr, ptr+elem_size), the pool's
  * own header lives at ptr+hdr_off while the element is free */
 typedef struct wb_mp wb_mp;
